@@ -24,6 +24,11 @@ def x_obligations(tier):
         o.append(Obl(f"C08-match[{s},{pre!r}+{n}]", M, "match1", env={"VF_SEARCH": s, "VF_PRE": pre, "VF_N": str(n)}, timeout=T, family="C08-match",
                      bound=f"Sid({pre!r}+a).match({s!r}), every a with len<={n}"))
     # or-lists inside a free segment (typed, no other search symbol) and or-lists of two un-typeable alternatives
+    # an untyped literal that is itself in the list finds nothing; a '*' at the type position matches both branches
+    for (s, pre, n, fixed) in [("h/x", "h/", 2, "h/x"), ("zz/top", "zz/", 3, "zz/top"), ("h/*/*", "h/s/", 2, "h/a/x"), ("*/*/*", "h/s/", 2, "")]:
+        o.append(Obl(f"C08-find1[{s},{pre!r}+{n}{',+' + fixed if fixed else ''}]", M, "find1", env={"VF_SEARCH": s, "VF_PRE": pre, "VF_N": str(n), "VF_FIXED": fixed}, timeout=T, family="C08-item",
+                     bound=f"search {s!r} (concrete), list = [{pre!r}+a{', ' + repr(fixed) if fixed else ''}], EVERY str a with len<={n}"))
+        o.append(Obl(f"C08-match[{s},{pre!r}+{n}]", M, "match1", env={"VF_SEARCH": s, "VF_PRE": pre, "VF_N": str(n)}, timeout=T, family="C08-match", bound=f"Sid({pre!r}+a).match({s!r}), every a with len<={n}"))
     for (s, pre, n, fixed) in [("h/a/x,y", "h/a/", 2, ""), ("h/x,y/*", "h/y/", 2, ""), ("h/x,y/*", "h/", 3, "h/y/zz"), ("h/a/x,y/v1", "h/a/", 1, "h/a/y/v1")]:
         o.append(Obl(f"C08-find1[{s},{pre!r}+{n}{',+' + fixed if fixed else ''}]", M, "find1", env={"VF_SEARCH": s, "VF_PRE": pre, "VF_N": str(n), "VF_FIXED": fixed}, timeout=T, family="C08-item",
                      bound=f"search {s!r} (concrete), list = [{pre!r}+a{', ' + repr(fixed) if fixed else ''}], EVERY str a with len<={n}"))
